@@ -45,6 +45,8 @@ func sqlFragments(v ssa.Value) (frags []string, dyn []ssa.Value) {
 
 func runC14(c *Ctx) {
 	c14Probe(c)
+	c14OutputUnlink(c, "(*ls.Replica).Restore")
+	c14OutputUnlink(c, "(*ls.Replica).RestoreV3")
 	isSrc := func(v ssa.Value) bool {
 		// handle derived from DB.db: directly, or a Tx/Conn obtained from it, or the tracked read tx
 		seen := map[ssa.Value]bool{}
@@ -545,4 +547,81 @@ func c14Probe(c *Ctx) {
 		c.requireGuardV(rule, fn, vs, tracked)
 	}
 	c.floor(rule, n, 1, "header probes in handlePotentialDatabase")
+}
+
+// c14OutputUnlink: a restore unlinks the output path (or its sidecars) only after it has
+// itself renamed the restored database onto it.  Before that point whatever is at the
+// path does not belong to litestream: Restore refuses to run when something exists there,
+// and what appears afterwards is the application's (a database created while the restore
+// was talking to the replica).
+func c14OutputUnlink(c *Ctx, name string) {
+	const rule = "R6-output-unlinked-only-after-own-publication"
+	fn := c.fn(rule, name)
+	if fn == nil {
+		return
+	}
+	var isOut func(v ssa.Value, d int) bool
+	isOut = func(v ssa.Value, d int) bool {
+		if v == nil || d > 4 {
+			return false
+		}
+		if vFieldLoad("RestoreOptions.OutputPath", nil)(v) {
+			return true
+		}
+		for _, o := range origins(v) {
+			if b, ok := o.(*ssa.BinOp); ok && b.Op == token.ADD {
+				// opt.OutputPath + "-wal" is a sidecar of the output; + ".tmp" is the staging file
+				if sfx, isK := constString(b.Y); isK && strings.Contains(sfx, "tmp") {
+					continue
+				}
+				if isOut(b.X, d+1) {
+					return true
+				}
+			}
+		}
+		return false
+	}
+	var starts []*ssa.BasicBlock
+	for _, ren := range callsTo(fn, nameIs("os.Rename")) {
+		if len(ren.Common().Args) == 2 && isOut(ren.Common().Args[1], 0) {
+			for _, e := range nilEdges(fn, ren) {
+				starts = append(starts, e.From.Succs[e.Succ])
+			}
+		}
+	}
+	c.floor(rule, len(starts), 1, "rename onto opt.OutputPath in "+name)
+	after := func(site ssa.Instruction) bool {
+		if site == nil || site.Parent() != fn {
+			return false
+		}
+		for _, s := range starts {
+			if s == site.Block() || s.Dominates(site.Block()) {
+				return true
+			}
+		}
+		return false
+	}
+	n := 0
+	isRm := nameIs("os.Remove", "os.RemoveAll")
+	for _, vs := range callSitesV(fn, isRm) {
+		k := vs.Call()
+		if len(k.Common().Args) != 1 || !isOut(resolveThroughCtx(k.Common().Args[0], vs.Ctx), 0) {
+			continue
+		}
+		n++
+		c.check(after(vs.At()), rule, fnName(fn)+": the output path is unlinked only after this restore renamed its own file onto it", c.pos(k),
+			"dominated by the success edge of the rename", "the output path can be unlinked on a path where this restore has not published anything there: a database the application created in the meantime is deleted")
+	}
+	// closures (deferred cleanups): they run wherever the function returns after their creation
+	for _, g := range withClosures(fn)[1:] {
+		for _, k := range callsTo(g, isRm) {
+			if len(k.Common().Args) != 1 || !isOut(k.Common().Args[0], 0) {
+				continue
+			}
+			n++
+			c.check(after(liftTo(fn, k)), rule, fnName(fn)+": the output path is unlinked only after this restore renamed its own file onto it", c.pos(k),
+				"the closure is created after the success edge of the rename", "a cleanup closure created before the rename unlinks the output path on failure paths where this restore has not published anything there: a database the application created in the meantime is deleted")
+		}
+	}
+	c.floor(rule, n, 1, "unlinks of the output path in "+name)
 }
